@@ -77,7 +77,7 @@ func (w *trackWriter) Close() error {
 	w.closed++
 	w.b.mu.Unlock()
 	w.b.log(recCall{Method: "Writer.Close", ID: w.id})
-	return nil
+	return w.b.CloseErr
 }
 func (w *trackWriter) Size() int64    { return int64(len(w.buf)) }
 func (w *trackWriter) ChunkSize() int { return w.chunk }
@@ -103,6 +103,7 @@ type recBackend struct {
 	Err       error
 	CommitErr error
 	WriteErr  error
+	CloseErr  error // returned by every writer's Close
 	// Content served by reader methods.
 	Content   []byte
 	MediaType string
